@@ -72,17 +72,19 @@ type input struct {
 	// Rounds, Goroutines: concurrent part.
 	Rounds     int `json:"rounds,omitempty"`
 	Goroutines int `json:"goroutines,omitempty"`
+	// ColdFirst: the concurrent rounds come before the sequential reference renders.
+	ColdFirst bool `json:"cold_first,omitempty"`
 	// OtherOut: the fw.Out of this case observed in another process (replay of a D2 violation).
 	OtherOut string `json:"other_process_out,omitempty"`
 }
 
-type sizes struct{ det, conc, docsPerDet, concDocs, rounds int }
+type sizes struct{ det, conc, cold, docsPerDet, concDocs, rounds int }
 
 func sz(tier string) sizes {
 	if tier == "thorough" {
-		return sizes{det: 1200, conc: 120, docsPerDet: 4, concDocs: 8, rounds: 12}
+		return sizes{det: 1200, conc: 120, cold: 800, docsPerDet: 4, concDocs: 8, rounds: 12}
 	}
-	return sizes{det: 60, conc: 16, docsPerDet: 4, concDocs: 8, rounds: 5}
+	return sizes{det: 60, conc: 16, cold: 48, docsPerDet: 4, concDocs: 8, rounds: 5}
 }
 
 // seed of the run: Gen only receives the per-case generator, and the mirror of case i must rebuild
@@ -136,6 +138,16 @@ func genCase(seed int64, i int, tier string) input {
 		return in
 	}
 	r := fw.CaseRNG(seed, "C15", i)
+	if i >= 2*s.det+s.conc {
+		// cold start: a fresh worker process (Batch is 1) whose first renders are concurrent ones of
+		// small documents: lazily initialised process-wide state (hyphenation dictionary cache, ...) is
+		// first touched by several goroutines at once
+		in := input{Kind: "conc", Rounds: 2, Goroutines: 8, ColdFirst: true}
+		for k := 0; k < 8; k++ {
+			in.Docs = append(in.Docs, cdoc{Doc: smallDoc(r), Biased: true})
+		}
+		return in
+	}
 	in := input{Kind: "conc", Rounds: s.rounds, Goroutines: s.concDocs}
 	for k := 0; k < s.concDocs; k++ {
 		in.Docs = append(in.Docs, genDoc(r))
@@ -157,7 +169,7 @@ func init() {
 		ID:   "C15",
 		Race: true,
 		Rule: "cases: (det) groups of 4 generated documents (60 % from a generator biased to ids/anchors/links, out-of-flow boxes broken at page boundaries, string-set/running elements, target-counter, @counter-style, hyphenation in 4 languages, data-URI images, @font-face, tables/flex/grid/columns, pseudo-elements, invalid declarations; 40 % hostile grammar documents of internal/gen; pango or go-text engine), each document rendered in order, re-written, rendered again in reverse order (other history), optionally with one font configuration and one parsed user-agent sheet reused, every group executed a second time in another worker process; (conc) 8 documents rendered sequentially, then by 8 goroutines at once for several rounds with a rotating assignment. All workers are the -race build. Non-trivial: every render of the case completed with a trace, at least one document drew text, and (det, primary copy only) the group produced >= 2 pages in some document; distinct = distinct input.",
-		N: func(tier string) int { s := sz(tier); return 2*s.det + s.conc },
+		N:    func(tier string) int { s := sz(tier); return 2*s.det + s.conc },
 		Gen: func(_ *rand.Rand, i int, tier string) any {
 			return genCase(runSeed(), i, tier)
 		},
@@ -165,7 +177,7 @@ func init() {
 		Post:  post,
 		Floor: func(tier string) int {
 			s := sz(tier)
-			return (s.det + s.conc) / 2
+			return (s.det + s.conc + s.cold) / 2
 		},
 		CounterFloors: func(tier string) map[string]int64 {
 			s := sz(tier)
@@ -175,15 +187,17 @@ func init() {
 				"pairs_history":             int64(s.det * 2),
 				"pairs_rewrite":             int64(s.det * 2),
 				"pairs_shared_fonts":        int64(s.det / 2),
-				"pairs_concurrent":          int64(s.conc * s.rounds * s.concDocs / 2),
+				"pairs_concurrent":          int64((s.conc*s.rounds + s.cold*2) * s.concDocs / 2),
 				"pairs_cross_process":       int64(s.det * 2),
-				"concurrent_rounds":         int64(s.conc * s.rounds),
+				"concurrent_rounds":         int64(s.conc*s.rounds + s.cold*2),
 				"docs_multi_page":           int64(s.det),
 				"docs_many_anchors_on_page": int64(s.det / 2),
 				"docs_broken_out_of_flow":   int64(s.det / 10),
 				"docs_gotext":               int64(s.det / 4),
 				"docs_custom_ua":            int64(s.det / 4),
-				"race_detector_on":          int64(2*s.det + s.conc),
+				"race_detector_on":          int64(2*s.det + s.conc + s.cold),
+				"cold_start_cases":          int64(s.cold),
+				"cold_start_hyphenating":    int64(s.cold / 2),
 			}
 		},
 		Assumptions: []string{
@@ -191,7 +205,9 @@ func init() {
 			"documents never reference time, randomness or the environment; resources come from a deterministic in-memory fetcher; every render gets its own font configuration except in the explicit reuse variants (which skip documents with @font-face, whose faces are added to the configuration by design)",
 			"the cross-process comparison relies on the framework running different batches in different worker processes",
 		},
-		Batch:     6,
+		// one case per worker process: every concurrent case meets the lazily filled process-wide
+		// caches (hyphenation dictionaries) cold, and the two copies of a det case never share a process
+		Batch:     1,
 		CPUBudget: 240,
 		Extra:     extra,
 	})
@@ -602,7 +618,19 @@ func (c *checker) conc() {
 	// sequential reference traces (this also warms nothing on purpose: lazily filled process-wide
 	// caches are first met by the concurrent renders in the cases where the reference comes second)
 	seq := make([]*outcome, n)
-	refFirst := hashStr(in.Docs[0].HTML)[0]%2 == 0
+	refFirst := hashStr(in.Docs[0].HTML)[0]%3 == 0 && !in.ColdFirst
+	if in.ColdFirst {
+		c.res.Count("cold_start_cases", 1)
+		nh := 0
+		for i := range in.Docs {
+			if in.Docs[i].Engine == "" && strings.Contains(in.Docs[i].HTML, `class="hy"`) {
+				nh++
+			}
+		}
+		if nh >= 2 {
+			c.res.Count("cold_start_hyphenating", 1) // >= 2 goroutines fill the dictionary cache at once
+		}
+	}
 	c.parseUAs()
 	doSeq := func() {
 		for di := 0; di < n; di++ {
@@ -693,13 +721,13 @@ func post(run *fw.RunInfo) []fw.PostViolation {
 
 func extra(run *fw.RunInfo, cov map[string]any) {
 	cov["comparisons"] = map[string]int64{
-		"same document twice in a row":                      run.Counters["pairs_repeat"],
-		"Document.Write twice":                              run.Counters["pairs_rewrite"],
-		"same document after other documents":               run.Counters["pairs_history"],
+		"same document twice in a row":                       run.Counters["pairs_repeat"],
+		"Document.Write twice":                               run.Counters["pairs_rewrite"],
+		"same document after other documents":                run.Counters["pairs_history"],
 		"... of which with a shared user-agent sheet object": run.Counters["pairs_shared_ua"],
-		"font configuration reused":                         run.Counters["pairs_shared_fonts"],
-		"concurrent vs sequential":                          run.Counters["pairs_concurrent"],
-		"two worker processes":                              run.Counters["pairs_cross_process"],
+		"font configuration reused":                          run.Counters["pairs_shared_fonts"],
+		"concurrent vs sequential":                           run.Counters["pairs_concurrent"],
+		"two worker processes":                               run.Counters["pairs_cross_process"],
 	}
 	cov["race_reports"] = run.Counters["race_reports"]
 	if anchorOrderDefectOpen {
